@@ -348,8 +348,10 @@ def jsum_spec(name, cg, cur):
                                       c_mul(to_cx(s), eng.getitem(cur, p.val)))}
 
     def assume(eng, i, elem):
-        # INV_CONN: a connected end always has a junction pulse (end_segs entry not None)
-        return SV(z3.Not(elem[0].isnone), 'bool')
+        # INV_CONN: a connected end always has a junction pulse (end_segs entry not None),
+        # and it is a pulse of the model (one current per pulse)
+        return b_and(SV(z3.Not(elem[0].isnone), 'bool'), r_cmp('>=', elem[0].val, 0),
+                     r_cmp('<', elem[0].val, cur.length))
     return LoopSpec([('local', 'c')], step, name, [cg.ident], assume=assume)
 
 
@@ -473,7 +475,8 @@ def t_currents(eng):
         return True
 
     eng.loop_specs[(Q, k_rows)] = LoopSpec([('local', 'r')], None, P + '.rows', [m.ident],
-                                           result=rows_result, check=rows_check)
+                                           result=rows_result, check=rows_check,
+                                           assume=lambda e, i, k: b_and(r_cmp('>=', k, 0), r_cmp('<', k, cur.length)))
     eng.loop_specs[(Q, k_outer)] = LoopSpec([('local', 'r')], None, P + '.blocks', [m.ident],
                                             check=outer_check, assume=outer_assume)
     eng.call_qual(Q, [m])
